@@ -73,3 +73,47 @@ class Poly:
         if not self.t:
             return "0"
         return " + ".join("%s*%s" % (v, "*".join("%s^%d" % se for se in k) or "1") for k, v in sorted(self.t.items()))
+
+
+def subst(p, mapping):
+    """replace symbols by polynomials"""
+    out = Poly()
+    for k, v in p.t.items():
+        term = Poly.const(v)
+        for s, e in k:
+            base = mapping.get(s, Poly.sym(s))
+            for _ in range(e):
+                term = term * base
+        out = out + term
+    return out
+
+
+def reduce_products(p, rules, rounds=60):
+    """rules: {(symA, symB) sorted tuple: Poly}: rewrite one occurrence of symA*symB by the polynomial"""
+    cur = p
+    for _ in range(rounds):
+        changed = False
+        out = Poly()
+        for k, v in cur.t.items():
+            d = dict(k)
+            hit = None
+            for (a, b) in rules:
+                if a == b:
+                    if d.get(a, 0) >= 2:
+                        hit = (a, b)
+                        break
+                elif d.get(a, 0) >= 1 and d.get(b, 0) >= 1:
+                    hit = (a, b)
+                    break
+            if hit is None:
+                out = out + Poly({k: v})
+                continue
+            changed = True
+            d[hit[0]] -= 1
+            d[hit[1]] -= 1
+            rest = Poly({tuple(sorted((x, y) for x, y in d.items() if y > 0)): v})
+            out = out + rest * rules[hit]
+        cur = out
+        if not changed:
+            break
+    return cur
